@@ -33,3 +33,39 @@ func HarnessC13NotLeaderAcquire() {
 	}
 	vreach("end")
 }
+
+// HarnessC13StopLeading: losing a shard drops its store from the map and stops it; other shards keep theirs.
+// leaderCheck stops exactly the shards whose recorded leader is not this instance.
+// verif:bounds 2 shards with stores; symbolic leader table (me / other / absent per shard)
+func HarnessC13StopLeading() {
+	verifResetGhosts()
+	r, _ := verifLimiter(true, proxyv1alpha1.TokenBucket)
+	s0, s1 := &fakeStore{fc: &fakeFC{}}, &fakeStore{fc: &fakeFC{}}
+	r.limitStoreMap[0], r.limitStoreMap[1] = s0, s1
+	el := r.leaderElector.(*fakeElector)
+	el.leaders = map[int]proxyv1alpha1.EndpointInfo{}
+	lead := [2]int{nondetRange("leader0", 0, 2), nondetRange("leader1", 0, 2)}
+	for s := 0; s < 2; s++ {
+		switch lead[s] {
+		case 0:
+			el.leaders[s] = proxyv1alpha1.EndpointInfo{ShardID: int32(s), Leader: "me"}
+		case 1:
+			el.leaders[s] = proxyv1alpha1.EndpointInfo{ShardID: int32(s), Leader: "someone-else"}
+		}
+	}
+	if nondetBool("viaLeaderCheck") {
+		r.leaderCheck()
+		for s := 0; s < 2; s++ {
+			_, has := r.limitStoreMap[s]
+			vassert(has == (lead[s] == 0), "C13/leadercheck-keeps-store-of-lost-shard-or-drops-a-led-one")
+		}
+	} else {
+		s := nondetRange("stop", 0, 1)
+		r.stopLeading(s)
+		_, has := r.limitStoreMap[s]
+		vassert(!has, "C13/stopleading-keeps-the-store")
+		_, other := r.limitStoreMap[1-s]
+		vassert(other, "C13/stopleading-drops-another-shards-store")
+	}
+	vreach("end")
+}
